@@ -267,6 +267,8 @@ FIELDS_DIM = {
 def check_solution_shape(sol, system, solver_name, out_violations):
     """Shape / iteration clauses of the Solution contract."""
     nt = len(sol.t)
+    if nt == 0:
+        return True
     for name, dim in FIELDS_DIM.items():
         val = getattr(sol, name, None)
         if val is None:
